@@ -116,6 +116,15 @@ func (a *absint) linOfAt(t Term, depth int, at ssa.Instruction) linForm {
 						return a.linOfAt(Term{V: ac.Call.Args[0], Len: true}, depth-1, at).addScaled(a.linOfAt(Term{V: ac.Call.Args[1], Len: true}, depth-1, at), 1)
 					}
 				}
+				// len(h.Sum(b)) = len(b) + digest size (HMAC-SHA256 / HMAC-SHA1)
+				if d := hmacSumDigest(ac); d > 0 {
+					r := newLin()
+					r.c = d
+					if isNilConst(ac.Call.Args[0]) {
+						return r
+					}
+					return r.addScaled(a.linOfAt(Term{V: ac.Call.Args[0], Len: true}, depth-1, at), 1)
+				}
 				// len(slices.Concat(a, b, …)) = len(a) + len(b) + …; len(Clone(x)) = len(x)
 				switch stdCallee(&ac.Call) {
 				case "slices.Concat":
@@ -266,6 +275,11 @@ func (a *absint) linSmall(l linForm, at ssa.Instruction) bool {
 		}
 	}
 	return true
+}
+
+// proveLinearOff: x + k ≤ y at the program point (k any constant).
+func (a *absint) proveLinearOff(x, y Term, at ssa.Instruction, k int64) (bool, string) {
+	return a.proveLinear(x, y, at, k)
 }
 
 // proveLinear: y - x ≥ need (need = 1 for x < y, 0 for x ≤ y).
